@@ -1,7 +1,94 @@
 import Driver.Wire
-/-! Driver commands of the Depth area (filled in by the area's owner). -/
-namespace Marwood.Driver.Depth
+import Marwood.Depth
+/-!
+Driver commands of the Depth area (C19).
 
-def handle (_cmd : String) (_args : List String) : Option String := none
+* `measure <fn> <dir> <n>` — run the depth model of `<fn>` on the family `<dir>` at depth `n`
+  (`n ≤ 5000`: the models are structurally recursive themselves), answer `ok <frames>`.
+* `grid <op> <dir> <n> <thread> <profile>` — what the model says about a scenario of the grid:
+  `bounded|unbounded <group>=<frames>,…` from the closed forms (`Proofs/C19.closedForm_eq_model`
+  proves them equal to the models for every `n`), or `unmodelled`.
+* `grid-spec …` — what the property demands of every scenario: `completes`.
+-/
+namespace Marwood.Driver.Depth
+open Marwood Marwood.Depth
+
+def decDir : String → Option Dir
+  | "car" => some .car
+  | "cdr" => some .cdr
+  | "vec" => some .vec
+  | "quote" => some .quote
+  | _ => none
+
+def decFn : String → Option Fn
+  | "parse" => some .parse
+  | "put" => some .put
+  | "get" => some .get
+  | "mark" => some .mark
+  | "equal" => some .equal
+  | "fmt" => some .fmt
+  | "drop" => some .drop
+  | _ => none
+
+def okNat : Option Nat → Option String
+  | some k => some s!"ok {k}"
+  | none => some "err fuel"
+
+def measure (fn dir : String) (n : Nat) : Option String :=
+  if n > 5000 then none else
+  match fn, dir with
+  | "parse", "dot" => okNat (parseDepth (dotToks n []))
+  | "parse", "expr-app" => okNat (parseDepth (appToks n []))
+  | "compile", "expr-app" => okNat (some (compileDepth (nestApp n)))
+  | "compile", "expr-lambda" => okNat (some (compileDepth (nestLambda n)))
+  | "compile", "quote" => okNat (some (compileDepth (nest .quote n)))
+  | _, _ =>
+    match decFn fn, decDir dir with
+    | some f, some d => okNat (modelDepth f d n)
+    | _, _ => none
+
+def cls (b : Bool) : String := if b then "bounded" else "unbounded"
+
+/-- the clusters a scenario of the grid goes through, with the closed-form frame counts the child
+    process can observe, and whether every cluster on the path is bounded in this direction -/
+def grid (op dir : String) (n : Nat) : Option String :=
+  match decDir dir with
+  | some d =>
+    let c := fun f => closedForm f d n
+    let b := fun f => bounded f d
+    (match op with
+    | "read" => some s!"{cls (b .parse)} parse={c .parse}"
+    -- `(quote D)`: compile_expression → compile_procedure_application → compile_quote →
+    -- maybe_put_cell(D); the result is converted back by get_as_cell
+    | "quote" => some s!"{cls (b .put && b .get)} compile=2,get={c .get},put={c .put - 1}"
+    -- collections run while the structure is being built
+    | "build" => some s!"{cls (b .mark)} -"
+    | "gc" => some s!"{cls (b .mark)} mark={c .mark}"
+    | "equal" => some s!"{cls (b .mark && b .equal)} equal={c .equal}"
+    -- get_as_cell, Display, and the converted datum is dropped
+    | "write" => some s!"{cls (b .mark && b .get && b .fmt && b .drop)} fmt={c .fmt},get={c .get}"
+    | "drop" => some s!"{cls (b .drop)} -"
+    | _ => none)
+  | none =>
+    match op, dir with
+    | "read", "dot" => some s!"unbounded parse={3 * n + 2}"
+    | "read", "expr-app" => some s!"unbounded parse={2 * n + 1}"
+    | "build", "expr-app" => some s!"unbounded compile={3 * n + 1}"
+    | "build", "expr-lambda" => some s!"unbounded compile={6 * n + 1}"
+    | "read", "expr-lambda" | "read", "expr-let" | "build", "expr-let"
+    | "drop", "expr-app" | "drop", "expr-lambda" | "drop", "expr-let" => some "unmodelled"
+    | _, "closure" | _, "cont" | _, "nontail" | _, "nontail-error" =>
+      if ["build", "gc", "equal", "write", "drop"].contains op then some "unmodelled" else none
+    | _, _ => none
+
+def handle (cmd : String) (args : List String) : Option String :=
+  match cmd, args with
+  | "measure", [fn, dir, n] => n.toNat?.bind (measure fn dir)
+  | "grid", [op, dir, n, thread, profile] =>
+    if (thread == "main" || thread == "t2m") && (profile == "release" || profile == "debug") then
+      n.toNat?.bind (grid op dir)
+    else none
+  | "grid-spec", [_, _, _, _, _] => some "completes"
+  | _, _ => none
 
 end Marwood.Driver.Depth
